@@ -572,7 +572,13 @@ func hook(c rescorr.Case, ms *yang.Modules, errs []error, out *rescorr.GoOut) {
 			add(fmt.Sprintf("Find(%q) from %s changed the trees: %+d nodes, %+d errors", q.path, readableLoc(w.trees[st.tree].ref+"/"+encSteps(st.steps)+"/"+lib.HexS(st.e.Path())), dn, de))
 		}
 	}
-	out.Extra["n"] = []string{strconv.Itoa(N), strconv.Itoa(nReadOnly)}
+	late := 0
+	for _, n := range w.nodes {
+		if n.e.Kind == yang.ChoiceEntry && strings.HasPrefix(n.e.Name, "lc") && n.e.Parent != nil {
+			late++
+		}
+	}
+	out.Extra["n"] = []string{strconv.Itoa(N), strconv.Itoa(nReadOnly), strconv.Itoa(late)}
 }
 
 // ancestor walks k parents up.
@@ -751,9 +757,13 @@ func judge(w worked, res *lib.Result, t *tally, verbose bool) (bad bool) {
 	for _, x := range w.g.Findings {
 		report(lib.Disagreement{Kind: "spec", Go: x, SpecVerdict: "violates", What: "Go-side oracle: " + x})
 	}
-	if n := w.g.Extra["n"]; len(n) == 2 {
+	if n := w.g.Extra["n"]; len(n) == 3 {
 		v, _ := strconv.Atoi(n[0])
 		t.nodes += int64(v)
+		if l, _ := strconv.Atoi(n[2]); l > 0 {
+			t.kinds["sets-with-late-grafted-choices"]++
+			t.kinds["late-grafted-choices"] += int64(l)
+		}
 	}
 	reported := 0
 	for i := range q {
